@@ -156,18 +156,20 @@ func oracleLayerSpec(c *FsCase, before, after *Outcome, out string) []Problem {
 			}
 			comps := strings.Split(rel, "/")
 			sig := ""
-			if len(comps) >= 2 {
-				anc := filepath.Join(d, comps[0])
+			// D7: the marker's walk removed a directory on the way to e that is not remembered as unpacked — the
+			// highest ancestor of e beneath d that has no header of its own before the marker (the walk does not
+			// descend into what it removes, so that ancestor decides)
+			for depth := 1; depth < len(comps); depth++ {
+				anc := filepath.Join(d, filepath.Join(comps[:depth]...))
 				hasHeader := false
 				for k := 0; k < i; k++ {
 					if es[k].name == anc && !es[k].wh && !es[k].opq && !es[k].reserved {
 						hasHeader = true
 					}
 				}
-				// the marker's walk removes a child of `d` that is not remembered as unpacked, whatever
-				// later entries re-create there
 				if !hasHeader {
 					sig = "D7"
+					break
 				}
 			}
 			msg := fmt.Sprintf("C06: opaque marker (entry %d, %q) removed %q, which this layer itself provides (entry %d)", i, m.name, e.name, j)
